@@ -267,6 +267,25 @@ struct Outcome {
 
 static int pick_other_fill(int f) { return f == FILL_FF ? FILL_A5 : FILL_FF; }
 
+// The stack below the current frame is painted with the run's pattern before the subject runs, so that a read of a
+// never-written local is (a) the same in every process and (b) different under another fill pattern: it then shows as
+// fill-dependence instead of as an irreproducible run.
+static void __attribute__((noinline)) paint_stack(int fill, uint64_t seed)
+{
+  volatile unsigned char area[384 * 1024];
+  unsigned char b = fill == FILL_00 ? 0x00 : fill == FILL_FF ? 0xFF : fill == FILL_A5 ? 0xA5 : 0;
+  if (fill == FILL_PRNG) { uint64_t st = seed ? seed : 1; for (size_t i = 0; i < sizeof area; i += 8) { uint64_t r = splitmix64(st); for (int k = 0; k < 8; k++) area[i + k] = (unsigned char)(r >> (8 * k)); } }
+  else for (size_t i = 0; i < sizeof area; i++) area[i] = b;
+  __asm__ volatile("" ::: "memory");
+}
+
+static Verdict __attribute__((noinline)) execute_shifted(Engine& e, const Plan& plan, EventLog& log, Stats& st, size_t shift)
+{
+  volatile char* pad = shift ? (volatile char*)__builtin_alloca(shift) : nullptr;
+  if (pad) { pad[0] = 1; pad[shift - 1] = 1; }
+  return e.execute(plan, log, st);
+}
+
 // Execute a plan in this process.  Catches what can be caught; a sanitizer
 // abort kills the process (the caller decides whether that is acceptable).
 static Outcome execute_here(Engine& e, const Plan& plan, bool keep_log)
@@ -277,8 +296,9 @@ static Outcome execute_here(Engine& e, const Plan& plan, bool keep_log)
   uint64_t fseed = (uint64_t)plan.geti("seed", 1);
   probes_reset();
   set_fill(fill, fseed);
+  paint_stack(fill, fseed);
   Verdict v;
-  try { v = e.execute(plan, log, o.st); }
+  try { v = execute_shifted(e, plan, log, o.st, 0); }
   catch (const std::bad_alloc&) { v = Verdict::fail(std::string(e.property()) + ":uncaught:bad_alloc", -1); }
   catch (const std::exception& x) { v = Verdict::fail(std::string(e.property()) + ":uncaught:std::exception", -1, x.what()); }
   catch (...) { v = Verdict::fail(std::string(e.property()) + ":uncaught:unknown", -1); }
@@ -290,11 +310,16 @@ static Outcome execute_here(Engine& e, const Plan& plan, bool keep_log)
     EventLog log2; Stats st2;
     probes_reset();
     set_fill(pick_other_fill(fill), fseed ^ 0x5555);
+    paint_stack(pick_other_fill(fill), fseed ^ 0x5555);
     Verdict v2;
-    try { v2 = e.execute(plan, log2, st2); }
+    // ... and at another stack depth and heap position: stale addresses left on the stack or in reused blocks change too
+    void* heap_shift = malloc(40000 + 64 * (size_t)(fseed % 97));
+    try { v2 = execute_shifted(e, plan, log2, st2, 70000 + 16 * (size_t)(fseed % 61)); }
     catch (...) { v2 = Verdict::fail(std::string(e.property()) + ":uncaught:refill", -1); }
+    free(heap_shift);
     set_fill(FILL_NONE);
     o.st.add("refill.runs");
+    if (getenv("VERIF_DEBUG_REFILL")) fprintf(stderr, "refill: hash1 %016llx hash2 %016llx ok2 %d\n", (unsigned long long)log.hash, (unsigned long long)log2.hash, (int)v2.ok);
     if (!v2.ok) v = v2;
     else if (log2.hash != log.hash)
       v = Verdict::fail(std::string(e.property()) + ":fill-dependence", -1,
@@ -317,7 +342,7 @@ static std::string tmpdir()
 
 // Execute in a forked child, so that a sanitizer abort or a hang becomes an
 // outcome instead of killing the caller.
-static Outcome execute_isolated(Engine& e, const Plan& plan, bool keep_log, int timeout_s = 120)
+static Outcome execute_isolated(Engine& e, const Plan& plan, bool keep_log, int timeout_s = 30)
 {
   Outcome o;
   int pfd[2]; if (pipe(pfd) != 0) { o.ok = false; o.cls = "harness:pipe"; return o; }
@@ -375,6 +400,60 @@ static Outcome execute_isolated(Engine& e, const Plan& plan, bool keep_log, int 
   return o;
 }
 
+// ------------------------------------------------ address-dependence probe ---
+// A run whose observable log differs between fresh processes although the simulator decides every choice is reading
+// something the plan does not determine.  With address-space randomisation switched off such a run repeats exactly;
+// with it on it does not: the observable depends on ADDRESSES (never-written memory holding stale pointers, or a
+// pointer printed).  The probe executes the plan in freshly exec'ed copies of this program, twice without and up to
+// four times with randomisation.
+#include <sys/personality.h>
+static bool exec_hash_once(const std::string& planfile, bool no_aslr, std::string& hash)
+{
+  int pfd[2]; if (pipe(pfd) != 0) return false;
+  pid_t pid = fork();
+  if (pid == 0) {
+    close(pfd[0]); dup2(pfd[1], 1); close(pfd[1]);
+    int dn = open("/dev/null", O_WRONLY); if (dn >= 0) { dup2(dn, 2); close(dn); }
+    if (no_aslr) personality(ADDR_NO_RANDOMIZE);
+    execl("/proc/self/exe", "engine", "--exec-hash", planfile.c_str(), (char*)nullptr);
+    _exit(127);
+  }
+  close(pfd[1]);
+  std::string out; char b[4096]; ssize_t n;
+  while ((n = read(pfd[0], b, sizeof b)) > 0) out.append(b, n);
+  close(pfd[0]);
+  int status = 0; waitpid(pid, &status, 0);
+  size_t p = out.find("hash ");
+  if (p == std::string::npos) { hash = fmt("died:%d", status); return true; }
+  hash = out.substr(p + 5, out.find('\n', p) - p - 5);
+  return true;
+}
+
+struct AslrProbe { bool stable_without = false, differs_with = false; std::string detail; };
+static AslrProbe aslr_probe(const Plan& plan)
+{
+  AslrProbe r;
+  std::string pf = tmpdir() + fmt("/probe-%d.plan", (int)getpid());
+  write_file(pf, plan.serialize());
+  std::string a, b; exec_hash_once(pf, true, a); exec_hash_once(pf, true, b);
+  r.stable_without = a == b && a.compare(0, 5, "died:") != 0;
+  std::string first; exec_hash_once(pf, false, first);
+  for (int i = 0; i < 3 && !r.differs_with; i++) { std::string h; exec_hash_once(pf, false, h); if (h != first) r.differs_with = true; }
+  r.detail = "without randomisation: " + a + " / " + b + "; with: " + first + " ...";
+  unlink(pf.c_str());
+  return r;
+}
+static bool is_address_class(const std::string& cls) { const std::string suf = ":address-dependent-output"; return cls.size() > suf.size() && cls.compare(cls.size() - suf.size(), suf.size(), suf) == 0; }
+
+// one execution "for the purpose of class cls": the ordinary isolated run, or the probe for the address class
+static Outcome execute_for_class(Engine& e, const Plan& p, const std::string& cls, bool keep_log, int timeout_s)
+{
+  if (!is_address_class(cls)) return execute_isolated(e, p, keep_log, timeout_s);
+  Outcome o; AslrProbe pr = aslr_probe(p);
+  if (pr.stable_without && pr.differs_with) { o.ok = false; o.cls = cls; o.hash = fnv(cls); o.note = "the observable log of this plan repeats exactly with address-space randomisation off and differs between processes with it on: something read depends on addresses (never-written memory or a printed pointer); " + pr.detail; o.logtext = pr.detail; }
+  return o;
+}
+
 // -------------------------------------------------------------- shrinking ---
 struct Shrinker {
   Engine& e; std::string cls; int budget; int runs = 0;
@@ -382,7 +461,7 @@ struct Shrinker {
   {
     if (runs >= budget) return false;
     runs++;
-    Outcome o = execute_isolated(e, p, false, 60);
+    Outcome o = execute_for_class(e, p, cls, false, 12);
     return !o.ok && o.cls == cls;
   }
   Plan run(Plan p)
@@ -500,7 +579,7 @@ int driver_main(int argc, char** argv, Engine& e)
     auto val = [&](std::string& dst) { if (i + 1 < argc) dst = argv[++i]; };
     if (a == "--worker" || a == "--count") mode = a;
     else if (a == "--gen" || a == "--run-index") { mode = a; std::string v; val(v); index = atoll(v.c_str()); }
-    else if (a == "--exec" || a == "--shrink" || a == "--replay") { mode = a; val(arg); }
+    else if (a == "--exec" || a == "--shrink" || a == "--replay" || a == "--exec-hash" || a == "--aslr-probe") { mode = a; val(arg); }
     else if (a == "--tier") val(tier);
     else if (a == "--seed") { std::string v; val(v); vseed = strtoull(v.c_str(), nullptr, 10); }
     else if (a == "--out") val(out);
@@ -531,6 +610,7 @@ int driver_main(int argc, char** argv, Engine& e)
     // stdin: "run <index>" ... "quit".  stdout: begin/end lines, flushed.
     signal(SIGALRM, on_alarm);
     Stats total;
+    long served = 0; bool retiring = false;
     char lb[256];
     while (fgets(lb, sizeof lb, stdin)) {
       if (!strncmp(lb, "quit", 4)) break;
@@ -539,7 +619,7 @@ int driver_main(int argc, char** argv, Engine& e)
       Plan p = gen(idx);
       printf("begin %llu %s\n", (unsigned long long)idx, p.get("seed").c_str()); fflush(stdout);
       g_cur_index = (sig_atomic_t)idx;
-      alarm(90);
+      alarm(25);
       Outcome o = execute_here(e, p, false);
       alarm(0);
       for (auto& s : o.st.states) total.states[s.first].insert(s.second.begin(), s.second.end());
@@ -547,13 +627,14 @@ int driver_main(int argc, char** argv, Engine& e)
              o.ok ? "ok" : "viol", o.ok ? "-" : o.cls.c_str(), o.step, o.st.nontrivial ? 1 : 0,
              p.steps.size(), stats_kv(o.st).c_str());
       fflush(stdout);
+      if (e.recycle_after() > 0 && ++served >= e.recycle_after()) { retiring = true; break; }
     }
     for (auto& s : total.states) {
       printf("states %s", s.first.c_str());
       for (auto k : s.second) printf(" %llx", (unsigned long long)k);
       printf("\n");
     }
-    printf("bye\n"); fflush(stdout);
+    printf(retiring ? "recycle\n" : "bye\n"); fflush(stdout);
     return 0;
   }
 
@@ -566,10 +647,27 @@ int driver_main(int argc, char** argv, Engine& e)
     return o.ok ? 0 : 1;
   }
 
+  if (mode == "--exec-hash") {     // used by the address-dependence probe: plain in-process execution, one line of output
+    std::string t; if (!read_file(arg, t)) return 2;
+    Plan p; if (!Plan::parse(t, p)) return 2;
+    p.seti("refill", 0);
+    Outcome o = execute_here(e, p, false);
+    printf("hash %016llx:%s\n", (unsigned long long)o.hash, o.ok ? "ok" : o.cls.c_str()); fflush(stdout);
+    _exit(0);
+  }
+
+  if (mode == "--aslr-probe") {
+    std::string t; if (!read_file(arg, t)) return 2;
+    Plan p; if (!Plan::parse(t, p)) return 2;
+    AslrProbe pr = aslr_probe(p);
+    printf("aslr-probe stable-without-aslr=%s differs-with-aslr=%s %s\n", pr.stable_without ? "yes" : "no", pr.differs_with ? "yes" : "no", pr.detail.c_str());
+    return 0;
+  }
+
   if (mode == "--exec") {
     std::string t; if (!read_file(arg, t)) { fprintf(stderr, "cannot read %s\n", arg.c_str()); return 2; }
     Plan p; if (!Plan::parse(t, p)) { fprintf(stderr, "bad plan\n"); return 2; }
-    Outcome o = execute_isolated(e, p, verbose);
+    Outcome o = getenv("VERIF_NO_ISOLATE") ? execute_here(e, p, verbose) : execute_isolated(e, p, verbose);
     if (verbose) fputs(o.logtext.c_str(), stdout);
     printf("result %s class=%s step=%d hash=%016llx note=%s\n", o.ok ? "ok" : "viol", o.cls.c_str(), o.step,
            (unsigned long long)o.hash, o.note.c_str());
@@ -580,19 +678,19 @@ int driver_main(int argc, char** argv, Engine& e)
     // --shrink plan.txt --out replay.json [--class C]
     std::string t; if (!read_file(arg, t)) { fprintf(stderr, "cannot read %s\n", arg.c_str()); return 2; }
     Plan p; if (!Plan::parse(t, p)) { fprintf(stderr, "bad plan\n"); return 2; }
-    Outcome o1 = execute_isolated(e, p, false);
+    Outcome o1 = execute_for_class(e, p, cls, false, 30);
     if (o1.ok) { printf("shrink: plan does not fail\n"); return 2; }
     if (!cls.empty() && o1.cls != cls) { printf("shrink: class differs: got %s expected %s\n", o1.cls.c_str(), cls.c_str()); return 2; }
-    Outcome o2 = execute_isolated(e, p, false);
+    Outcome o2 = execute_for_class(e, p, cls, false, 30);
     if (o2.ok || o2.cls != o1.cls || o2.hash != o1.hash) { printf("shrink: not deterministic (%s/%016llx vs %s/%016llx)\n", o1.cls.c_str(), (unsigned long long)o1.hash, o2.cls.c_str(), (unsigned long long)o2.hash); return 2; }
     size_t before = p.steps.size();
     Shrinker sh{e, o1.cls, budget};
     Plan m = sh.run(p);
-    Outcome om = execute_isolated(e, m, true);
+    Outcome om = execute_for_class(e, m, o1.cls, true, 30);
     // a crash whose kind depends on where the wild access lands may not repeat with the same class: try again,
     // then fall back to the unshrunk plan (which was confirmed twice above)
-    for (int attempt = 0; attempt < 3 && (om.ok || om.cls != o1.cls); attempt++) om = execute_isolated(e, m, true);
-    if (om.ok || om.cls != o1.cls) { m = p; om = execute_isolated(e, m, true); }
+    for (int attempt = 0; attempt < 3 && (om.ok || om.cls != o1.cls); attempt++) om = execute_for_class(e, m, o1.cls, true, 30);
+    if (om.ok || om.cls != o1.cls) { m = p; om = execute_for_class(e, m, o1.cls, true, 30); }
     if (om.ok || om.cls != o1.cls) { printf("shrink: minimised plan lost the violation\n"); return 2; }
     std::string j = replay_json(e, m, om, sh.runs, before);
     if (!write_file(out, j)) { fprintf(stderr, "cannot write %s\n", out.c_str()); return 2; }
@@ -606,7 +704,7 @@ int driver_main(int argc, char** argv, Engine& e)
     std::string pt, ecls, ehash;
     if (!json_get_string(j, "plan", pt) || !json_get_string(j, "class", ecls) || !json_get_string(j, "log_hash", ehash)) { fprintf(stderr, "bad replay file\n"); return 2; }
     Plan p; if (!Plan::parse(pt, p)) { fprintf(stderr, "bad plan in replay file\n"); return 2; }
-    Outcome o = execute_isolated(e, p, true);
+    Outcome o = execute_for_class(e, p, ecls, true, 30);
     if (verbose) fputs(o.logtext.c_str(), stdout);
     uint64_t eh = strtoull(ehash.c_str(), nullptr, 16);
     bool same = !o.ok && o.cls == ecls && o.hash == eh;
